@@ -30,6 +30,8 @@ def main():
     ids = args or sorted(d for d in os.listdir(os.path.join(VERIF, 'seeded')) if re.match(r'C\d+-b?\d+$', d))
     if '--harmless-agents' in sys.argv:
         return run_harmless(only_prefix='agent', by_files=True)
+    if '--kernel' in sys.argv:
+        return run_harmless(only_prefix='K', by_files=True, subdir='kernel', outname='eval.json', tag='KERNEL')
     if harmless:
         return run_harmless()
     if not os.path.isdir(WT):
@@ -62,12 +64,12 @@ def main():
     sh('git -C %s checkout -q -- . && git -C %s clean -fdq' % (WT, WT))
 
 
-def run_harmless(only_prefix='patch_', by_files=False):
+def run_harmless(only_prefix='patch_', by_files=False, subdir='harmless', outname=None, tag='HARMLESS'):
     """Edits under which every property still holds: every check must stay green (exit 0)."""
     if not os.path.isdir(WT):
         sh('git -C /repo worktree add --detach %s HEAD' % WT)
     claimed = [c['property_id'] for c in json.load(open(os.path.join(VERIF, 'MANIFEST.json')))['checks']]
-    hd = os.path.join(VERIF, 'seeded', 'harmless')
+    hd = os.path.join(VERIF, 'seeded', subdir)
     out = {}
     file_props = {}
     if by_files:
@@ -82,8 +84,9 @@ def run_harmless(only_prefix='patch_', by_files=False):
         for it in extract.ITEMS:
             for p in it.get('props', []):
                 file_props.setdefault(it['file'], set()).add(p)
-    if by_files and os.path.exists(os.path.join(hd, 'eval_agents.json')):
-        out = json.load(open(os.path.join(hd, 'eval_agents.json')))
+    outfile = os.path.join(hd, outname or ('eval_agents.json' if by_files else 'eval.json'))
+    if by_files and os.path.exists(outfile):
+        out = json.load(open(outfile))
     only = os.environ.get('HARMLESS_ONLY')
     for patch in sorted(f for f in os.listdir(hd) if f.endswith('.diff') and f.startswith(only_prefix) and (not only or re.search(only, f))):
         sh('git -C %s checkout -q -- . && git -C %s clean -fdq' % (WT, WT))
@@ -100,10 +103,10 @@ def run_harmless(only_prefix='patch_', by_files=False):
             env = dict(os.environ, VERIF_REPO=WT, VERIF_BUILD=BUILD)
             r = subprocess.run(['python3', os.path.join(VERIF, 'tools', 'check.py'), p, '--tier', 'quick'],
                                capture_output=True, text=True, env=env)
-            lines = [l for l in r.stdout.split('\n') if re.match(r'(VIOLATION|TOOLING|UNDECIDED)', l)]
-            out[patch][p] = {'exit': r.returncode, 'lines': lines[:5]}
-            print('HARMLESS', patch, p, 'exit=%d' % r.returncode, ' | '.join(lines[:2])[:200], flush=True)
-    json.dump(out, open(os.path.join(hd, 'eval_agents.json' if by_files else 'eval.json'), 'w'), indent=1)
+            lines = [l for l in r.stdout.split('\n') if re.match(r'(VIOLATION|TOOLING|UNDECIDED|  failed obligation)', l)]
+            out[patch][p] = {'exit': r.returncode, 'lines': lines[:6]}
+            print(tag, patch, p, 'exit=%d' % r.returncode, ' | '.join(lines[:2])[:200], flush=True)
+    json.dump(out, open(outfile, 'w'), indent=1)
     sh('git -C %s checkout -q -- . && git -C %s clean -fdq' % (WT, WT))
 
 
